@@ -436,6 +436,12 @@ func (p *Element) Neg(p1 *Element) *Element {
 
 // ScalarMul sets p to p1*s.
 func (p *Element) ScalarMul(p1 *Element, scalarMont *fr.Element) *Element {
+	// Both representatives of the identity, (0, 1) and (0, -1), have X = 0. The
+	// endomorphism-based routine below maps them to the invalid all-zero point,
+	// so handle them here: any multiple of the identity is the identity.
+	if p1.inner.X.IsZero() && !p1.inner.Y.IsZero() && !p1.inner.Z.IsZero() {
+		return p.SetIdentity()
+	}
 	var bigScalar big.Int
 	scalarMont.ToBigIntRegular(&bigScalar)
 	p.inner.ScalarMultiplication(&p1.inner, &bigScalar)
